@@ -151,6 +151,87 @@ def _normalise_inline_splat(tree):
         n.keywords = out
 
 
+_JAX_TREE = {'map', 'leaves', 'flatten', 'unflatten', 'structure', 'reduce', 'all', 'transpose', 'map_with_path', 'flatten_with_path', 'leaves_with_path'}
+
+
+def _normalise_jax_tree(tree):
+  """One spelling for jax's tree utilities: `jax.tree.map` -> `jax.tree_util.tree_map` (documented aliases of each other), and an
+  import alias of the module (`import jax.tree_util as jtu`, `from jax import tree_util`) -> `jax.tree_util`."""
+  alias = set()
+  for n in tree.body:
+    if isinstance(n, ast.Import):
+      alias |= {a.asname for a in n.names if a.name == 'jax.tree_util' and a.asname}
+    elif isinstance(n, ast.ImportFrom) and n.module == 'jax' and not n.level:
+      alias |= {a.asname or a.name for a in n.names if a.name == 'tree_util'}
+  for n in ast.walk(tree):
+    if not isinstance(n, ast.Attribute):
+      continue
+    v = n.value
+    if isinstance(v, ast.Name) and v.id in alias and isinstance(v.ctx, ast.Load):
+      new = ast.Attribute(value=ast.Name(id='jax', ctx=ast.Load()), attr='tree_util', ctx=ast.Load())
+      ast.copy_location(new, v)
+      ast.copy_location(new.value, v)
+      n.value = new
+    elif n.attr in _JAX_TREE and isinstance(v, ast.Attribute) and v.attr == 'tree' and isinstance(v.value, ast.Name) and v.value.id == 'jax':
+      v.attr = 'tree_util'
+      n.attr = 'tree_' + n.attr
+
+
+_FLIP = {ast.Eq: ast.Eq, ast.NotEq: ast.NotEq, ast.Lt: ast.Gt, ast.Gt: ast.Lt, ast.LtE: ast.GtE, ast.GtE: ast.LtE}
+
+
+def _constant_like(e):
+  if isinstance(e, ast.Constant):
+    return True
+  if isinstance(e, ast.UnaryOp) and isinstance(e.op, ast.USub) and isinstance(e.operand, ast.Constant):
+    return True
+  if isinstance(e, ast.Name):
+    return e.id.isupper()
+  if isinstance(e, ast.Attribute):
+    root = e
+    while isinstance(root, ast.Attribute):
+      root = root.value
+    return isinstance(root, ast.Name) and root.id.lstrip('_')[:1].isupper() and not root.id.isupper()
+  return False
+
+
+def _normalise_yoda(tree):
+  """`0 == n`, `_Enum.member == code`, `LIMIT < size` -> the variable on the left (`n == 0`, `code == _Enum.member`, `size > LIMIT`)."""
+  for n in ast.walk(tree):
+    if isinstance(n, ast.Compare) and len(n.ops) == 1 and type(n.ops[0]) in _FLIP and _constant_like(n.left) and not _constant_like(n.comparators[0]):
+      n.left, n.comparators[0] = n.comparators[0], n.left
+      n.ops = [_FLIP[type(n.ops[0])]()]
+
+
+def _len_minus(e, base_dump):
+  """k for `len(<base>) - k` with a positive integer literal k, else None."""
+  if isinstance(e, ast.BinOp) and isinstance(e.op, ast.Sub) and isinstance(e.right, ast.Constant) and type(e.right.value) is int and e.right.value > 0 \
+      and isinstance(e.left, ast.Call) and isinstance(e.left.func, ast.Name) and e.left.func.id == 'len' and len(e.left.args) == 1 and not e.left.keywords \
+      and ast.dump(e.left.args[0]) == base_dump:
+    return e.right.value
+  return None
+
+
+def _normalise_len_index(tree):
+  """`xs[len(xs) - 1]` -> `xs[-1]` (also as a slice bound): the same element of a sequence."""
+  for n in ast.walk(tree):
+    if not isinstance(n, ast.Subscript) or not isinstance(n.value, (ast.Name, ast.Attribute)):
+      continue
+    bd = ast.dump(n.value)
+    def neg(e):
+      k = _len_minus(e, bd) if e is not None else None
+      if k is None:
+        return e
+      new = ast.UnaryOp(op=ast.USub(), operand=ast.Constant(value=k))
+      ast.copy_location(new, e)
+      ast.copy_location(new.operand, e)
+      return new
+    if isinstance(n.slice, ast.Slice):
+      n.slice.lower, n.slice.upper = neg(n.slice.lower), neg(n.slice.upper)
+    else:
+      n.slice = neg(n.slice)
+
+
 _MODNAMES = None
 
 
@@ -400,6 +481,9 @@ class Mod:
       raise AnalysisError('unparsable file %s: %s' % (rel, e))
     _normalise_nested_names(self._tree, rel)
     _normalise_new_constants(self._tree, rel)
+    _normalise_jax_tree(self._tree)
+    _normalise_yoda(self._tree)
+    _normalise_len_index(self._tree)
     _normalise_inline_splat(self._tree)
     _normalise_named_splat(self._tree)
     _normalise_polarity(self._tree)
